@@ -218,7 +218,12 @@ func (c *c08) touchedReplaced(r *Reader, log *commitLog) bool {
 		return false
 	}
 	for _, sg := range c.segSnap {
-		if sg.closed && !sg.replaced {
+		// under the segment's lock: Replace holds it from closing the old segment to flagging it
+		// replaced, and reading the two fields in between would show a state that does not last
+		simrt.RLock(&sg.RWMutex)
+		bad := sg.closed && !sg.replaced
+		simrt.RUnlock(&sg.RWMutex)
+		if bad {
 			return false
 		}
 	}
